@@ -23,6 +23,7 @@ pub fn run_c02(ctx: &Ctx) -> i32 {
         cfg.attrs = false;
         cfg.max_layers = 12;
         cfg.cel_density = 6;
+        cfg.extreme_cels = true;
         cfg.extremes = false;
         if i % 7 == 0 {
             cfg.max_w = 40;
@@ -149,6 +150,7 @@ fn c06_model(rng: &mut Rng, i: u64) -> (Sprite, PaletteProgram, &'static str) {
             cfg.extremes = false;
             cfg.max_layers = 5;
             cfg.max_frames = 6;
+            cfg.extreme_cels = true;
             let (sp, pp) = gen::gen_sprite(rng, &cfg);
             (sp, pp, "random")
         }
